@@ -1,6 +1,6 @@
 """C15 — reference counts track handles exactly (mptcore/misc/refcount.c, array/buffer_alloc.c, array/array_clone.c,
 array/array_traits.c, convert/data_converter.c, meta/meta_reference_traits.c, meta/meta_geninfo.c, array/meta_buffer.c,
-event/reply_deferrable.c, core.h reference<T> (also for objects that own a reference<T> to another object of their family), mpt++/refcount_wrap.cpp, mpt++/metatype_generic.cpp, mptplot/rawdata_create.c,
+event/reply_deferrable.c (+ event/reply_set.c: the reply context with its reply data, detached replies and default reply), core.h reference<T> (also for objects that own a reference<T> to another object of their family), mpt++/refcount_wrap.cpp, mpt++/metatype_generic.cpp, mptplot/rawdata_create.c,
 mptplot/values/iterator_file.c, mptio stream input)."""
 import itertools
 import os
@@ -12,6 +12,7 @@ ARITY = {"new": 2, "mbuf": 2, "addref": 2, "unref": 1, "clone": 2, "conv": 2, "r
          "aclone": 2, "aclear": 1, "detach": 1, "detachf": 1, "setin": 2, "defer": 2, "force": 2, "unforce": 0,
          "xnew": 1, "xassign": 2, "xcopy": 2, "xmove": 2, "xdetach": 2, "xset": 2, "xdrop": 1, "xgen": 1, "xclone": 2,
          "modify": 3, "advance": 1, "rget": 2, "rread": 1, "rconv": 1, "xsetnext": 2, "xnext": 2,
+         "pnew": 2, "pset": 3, "pdefer": 2, "psend": 2, "preply": 2, "paddref": 2, "punref": 1, "pfail": 1,
          "set": 1, "raise": 0, "lower": 0}
 MKINDS = ["hcnt", "huni", "gen", "cfg", "top", "reply", "raw", "stream", "iterf", "itern"]      # created by "new" in a metatype slot
 COUNTED = ["hcnt", "reply", "raw", "stream", "iterf", "itern"]
@@ -35,6 +36,24 @@ N_CLEAN = ["xdrop %d" % i for i in (12, 13, 14)] + ["unref %d" % i for i in (15,
 N_OPS = ["xnext 12 12", "xnext 12 13", "xnext 13 13", "xnext 13 12", "xassign 12 13", "xassign 13 12", "xmove 12 13", "xmove 13 12",
          "xcopy 12 13", "xdrop 12", "xdrop 13", "xnew 13", "xnew 14", "xsetnext 12 13", "xsetnext 13 12", "xsetnext 14 12",
          "xsetnext 12 14", "xdetach 12 15", "xset 15 13", "addref 15 16", "unref 15", "unref 16"]
+# family p (deferrable reply context): clean-up in two orders (detached replies first / metatype handles first)
+P_CLEAN = (["pfail 0"] + ["preply %d 0" % i for i in (9, 10, 11)] + ["punref %d" % i for i in range(6)],
+           ["pfail 0"] + ["punref %d" % i for i in range(6)] + ["preply %d 1" % i for i in (11, 10, 9)])
+P_OPS = ["pset 0 2 11", "pset 0 4 22", "pset 0 0 1", "pset 0 5 3", "pdefer 0 9", "pdefer 0 10", "pdefer 1 11", "psend 0 1", "psend 0 0",
+         "preply 9 1", "preply 9 0", "preply 10 1", "paddref 0 1", "punref 0", "punref 1", "pfail 1", "pfail 0",
+         "pnew 2 8", "pset 2 8 33", "pdefer 2 11"]
+# base flows into which a defer() is inserted at EVERY position (accepted where an id is pending, refused elsewhere)
+P_FLOWS = [["pset 0 2 11", "pdefer 0 9", "pset 0 2 22", "preply 9 1", "punref 0"],
+           ["pset 0 2 11", "psend 0 1", "pset 0 4 22", "pdefer 0 9", "punref 0", "preply 9 1"],
+           ["pset 0 2 11", "paddref 0 1", "pdefer 1 9", "punref 0", "pset 1 2 22", "pdefer 1 10", "preply 10 0", "punref 1", "preply 9 1"],
+           ["pset 0 4 11", "pfail 1", "psend 0 1", "pdefer 0 9", "preply 9 1", "pfail 0", "preply 9 1", "pset 0 1 5", "punref 0"],
+           ["pset 0 2 11", "pdefer 0 9", "pset 0 2 22", "pdefer 0 10", "pset 0 2 33", "preply 10 1", "preply 9 0", "punref 0"],
+           ["pnew 2 8", "pset 2 8 44", "pset 0 2 11", "pdefer 2 9", "pdefer 0 10", "punref 2", "punref 0", "preply 9 1", "preply 10 1"],
+           ["pset 0 0 1", "pset 0 5 3", "pset 0 3 7", "pset 0 0 1", "punref 0"]]
+
+
+def pcase(ops, k=0):
+    return " ".join(["p", "pnew 0 4"] + list(ops) + P_CLEAN[k % 2])
 
 
 def ccase(ops):
@@ -95,6 +114,15 @@ class C15(DiffProperty):
             "slot s (s = d: cur = cur->next): chains of 1..4 nodes built from the tail and held by ONE outside handle, walked to the "
             "end, with sharers on middle nodes, cut and re-linked; every history of length <= 2 (thorough: <= 3) over 22 operations "
             "after a chain of 1, 2, 3 nodes plus a 3 % sample of length 3, plus 500 random histories; "
+            "p = the deferrable reply context of reply_deferrable.c with a recording send callback: create (id size 0..65536), set "
+            "reply data (id length 0..16, accepted / too long), defer (accepted; REFUSED: nothing pending, second defer, after the "
+            "answer was sent, after the id was cleared), answer through the context and through a detached reply with / without "
+            "message while the transport works / refuses, metatype addref / unref, handles dropped in every order (two clean-up "
+            "orders); 7 flows with a defer (single, double, on the second metatype handle, followed by its default reply) "
+            "inserted at EVERY position, every history of length <= 2 (thorough <= 3) over 20 operations plus a 12 % sample of "
+            "length 3, 1000 random histories of length 4..15; observed per operation: result, every call of the send callback "
+            "(context, id, message or default reply), counter field, reply target, pending id of every context, every "
+            "detached reply with the id it took over, destruction (ASan) and LeakSanitizer at the end; "
             "r,y = the bare counter through mpt_refcount_raise/lower and refcount::raise/lower from 0,1,2,max-1,max. quick: EVERY "
             "ordered pair (old kind, new kind) x shared/unshared x {conversion, traits init, rcopy} x target empty/held/same, "
             "every history of length <= 2 over a per-kind alphabet of 17..25 operations (plus a 6 % sample of length 3; x: "
@@ -105,7 +133,11 @@ class C15(DiffProperty):
     modelled = ("mptcore/misc/refcount.c, array/buffer_alloc.c (vtable addref/unref/detach for untyped content), array/array_clone.c, "
                 "array/array_traits.c, meta/meta_reference_traits.c, mptio/input_traits.c, convert/data_converter.c "
                 "(_mpt_metatype_wrap, TypeMetaRef target), meta/meta_geninfo.c, array/meta_buffer.c, config/config_global.c "
-                "(reference part), event/reply_deferrable.c (counter, defer, deferred reply without message), "
+                "(reference part), event/reply_deferrable.c (counter, defer, deferred reply without message) as kind KReply of "
+                "RefcountModel.v and in full (contextSend / contextSet / contextDefer with the pending-id test / deferReply with the kept "
+                "handle on a refused message / contextDetach / contextRef / contextUnref with target cut and default reply, "
+                "mpt_reply_deferrable, event/reply_set.c) in coq/C15/ReplyModel.v (own state space: contexts + metatype slots + "
+                "detached-reply slots + transport flag), "
                 "mptplot/rawdata_create.c (object + its stage array: create, addref/unref, clone refused, modify/advance as far as they create, "
                 "detach or keep the stage buffer, cycle limit 0; the value store arrays and data buffers INSIDE a stage buffer are contents: "
                 "typed copy/fini loops of C04/C05, checked here by a harness monitor and the sanitizers only), "
@@ -129,6 +161,10 @@ class C15(DiffProperty):
                "the stage member is only ever given stage buffers (setin restricted), all objects have cycle limit 0",
                "family n: the node class (virtual destructor logging the destruction, member reference<Node> next) is the harness' own; the "
                "guard that an object only owns handles on objects created before it (no cycles) is enforced by harness and model alike",
+               "family p: the send callback is the harness' (returns 7, or -5 while the case's transport flag is set; it records context, "
+               "id length, id, message pointer and checks the reply flag 0x80 on the id); ids are 1..127 repeated over the id length; "
+               "counter, reply.send, data.len/val of the context and the data of every detached reply are read from the structures "
+               "(reply_deferrable.c is #included); the harness treats a detached reply as consumed iff reply() returned >= 0",
                "c15_cxx.cpp reads the private counter member of metatype::generic by compiling meta.h with private/protected "
                "redefined to public (no layout change with g++)"]
     level_text = ("proof: Coq theorems (coq/C15/Properties.v) state for the transcribed mechanism, for EVERY history of the 30 handle "
@@ -162,6 +198,17 @@ class C15(DiffProperty):
                   "exactly the released handle (C15_chain_release_cascade); cur = cur->next keeps the successor alive even when the old "
                   "head held the only handle on it and dies in that assignment (C15_chain_step_keeps_successor; Example "
                   "C15_ex_release_first_faults: with release-before-retain the same step uses a destroyed object); "
+                  "DEFERRABLE REPLY CONTEXT (ReplyModel.v / ReplySpec.v / ReplySim.v, 8 operations, every history): the model with counter, "
+                  "destruction flag and length-field reply data refines a specification that keeps only the handles (metatype slots, "
+                  "detached replies with the id they took over), the pending id and the reply target and DERIVES count and existence — "
+                  "a commuting square with the abstraction function from every state satisfying counter = handles: same result, same "
+                  "calls of the send callback, successor = abstraction of the successor (C15_reply_step_refines_spec), same "
+                  "observation, no leak (C15_reply_refinement_preserves_observation), history refinement without fault "
+                  "(C15_reply_history_refines_spec), destroyed iff the specification's own run has no handle left and a live counter = "
+                  "its handle count (C15_reply_destroyed_iff_last_handle_dropped); a defer() with nothing pending hands out nothing and "
+                  "leaves state, counter and handles exactly unchanged (C15_reply_refused_defer_unchanged); dropping the last handle of a "
+                  "context with target and pending id sends the default reply for that id exactly once and destroys it "
+                  "(C15_reply_last_unref_sends_default_reply_once); "
                   "the invariant is inductive from any state "
                   "(C15_step_preserves_invariant); the model is tied to the code on every run by differential execution under "
                   "ASan/UBSan/LSan with counter fields, destruction time and vtable call order compared")
@@ -188,6 +235,12 @@ class C15(DiffProperty):
                   "static), from the second call of a process on a rawdata object does not convert to its own interface any more "
                   "(replay c new raw 0 rconv 0: I ?iface, S D; patch docs/C15_rawdata_type_traits.diff; no reference involved, belongs "
                   "to the type registry's clients rather than C15); rconv cases are generated only with RAWDATA_TYPE_STABLE = True. "
+                  "Reply context: own model and specification (third state space beside RefcountModel.v and ChainModel.v; kind KReply of the "
+                  "main model stays, there defer() is always preceded by a pending request); counters are not forced in family p (the "
+                  "saturated counter makes defer/addref refuse in model and specification, proved, but no case reaches 2^64-1 handles); "
+                  "that a non-final metatype unref cuts the reply target (reply.send = 0) is modelled AS CODED in model and "
+                  "specification (owner gone; C12's subject), so a context whose last handle is a detached reply never sends a default "
+                  "reply; the message content and reply.ptr = 0 are outside (C12). "
                   "All theorems closed under the global context.")
     technique = ("Coq forward-simulation (refinement) proof mechanism model -> handle-multiset specification for every operation and "
                  "every history, invariant counter = handle multiset + differential correspondence check")
@@ -206,7 +259,7 @@ class C15(DiffProperty):
         ided = ["c%d %s" % (i, c) for i, c in enumerate(cases)]
         fam = lambda l: l.split(None, 2)[1]
         I, errs = {}, []
-        for exe, fams, tag, env in ((hc, ("c", "r"), "implc", self.harness_env), (hx, ("x", "y", "n"), "implx", self.harness_env),
+        for exe, fams, tag, env in ((hc, ("c", "r", "p"), "implc", self.harness_env), (hx, ("x", "y", "n"), "implx", self.harness_env),
                                     (hx, ("g",), "implg", self.generic_env)):
             sub = [l for l in ided if fam(l) in fams]
             if sub:
@@ -237,10 +290,17 @@ class C15(DiffProperty):
     def classify(self, case):
         hdr, ops = self.split(case)
         cl = {"family:" + hdr[0]}
-        nclean = len(C_CLEAN) if hdr[0] == "c" else len(X_CLEAN) if hdr[0] in ("x", "g") else len(N_CLEAN) if hdr[0] == "n" else 0
+        nclean = (len(C_CLEAN) if hdr[0] == "c" else len(X_CLEAN) if hdr[0] in ("x", "g") else len(N_CLEAN) if hdr[0] == "n"
+                  else len(P_CLEAN[0]) if hdr[0] == "p" else 0)
         body = ops[:len(ops) - nclean] if nclean and len(ops) >= nclean else ops
-        for o in body:
+        for k, o in enumerate(body):
             cl.add("op:" + o[0])
+            if o[0] == "pdefer" and k and body[k - 1][0] == "pdefer" and body[k - 1][1] == o[1]:
+                cl.add("defer-twice")
+            if o[0] == "pdefer" and k and body[k - 1][0] in ("psend", "pnew"):
+                cl.add("defer-nothing-pending")
+            if o[0] == "preply":
+                cl.add("detached-reply:" + ("message" if o[2] != "0" else "default"))
             if o[0] == "new":
                 cl.add("kind:" + o[1])
             if o[0] == "mbuf":
@@ -263,7 +323,7 @@ class C15(DiffProperty):
         hdr, ops = self.split(case)
         n = len(ops)
         # drop the whole clean-up, then single operations, then simplify forced values
-        for k in (len(C_CLEAN), len(X_CLEAN), len(N_CLEAN)):
+        for k in (len(C_CLEAN), len(X_CLEAN), len(N_CLEAN), len(P_CLEAN[0])):
             if n > k:
                 yield self.join(hdr, ops[:n - k])
         for k in range(n):
@@ -472,6 +532,57 @@ class C15(DiffProperty):
                 ops.append("unref %d" % P())
         return ncase(ops)
 
+    def reply_cases(self, depth, rng, sample):
+        """the deferrable reply context: reply data set, defer accepted / refused (nothing pending, second defer, after the
+        answer was sent), answers through the context and through detached handles (with and without message, refused by the
+        transport), handles dropped in every order"""
+        cs = []
+        k = 0
+        for flow in P_FLOWS:
+            cs.append(pcase(flow, 0))
+            cs.append(pcase(flow, 1))
+            for pos in range(len(flow) + 1):
+                for ins in (["pdefer 0 11"], ["pdefer 0 11", "pdefer 0 11"], ["pdefer 1 11"], ["pdefer 0 11", "preply 11 0"]):
+                    k += 1
+                    cs.append(pcase(flow[:pos] + ins + flow[pos:], k))
+        for mx in ("0", "1", "2", "4", "5", "8", "10", "ffff", "10000"):
+            for ln in ("0", "1", "2", "4", "5", "8", "10"):
+                cs.append(" ".join(["p", "pnew 1 " + mx, "pset 1 %s 7f" % ln, "pdefer 1 9", "pdefer 1 10", "psend 1 1", "preply 9 1",
+                                    "pset 1 1 1", "pdefer 1 10", "punref 1", "preply 10 0"] + P_CLEAN[0]))
+        for n in range(1, depth + 1):
+            for seq in itertools.product(P_OPS, repeat=n):
+                k += 1
+                cs.append(pcase(seq, k))
+        for seq in itertools.product(P_OPS, repeat=depth + 1):
+            if rng.random() < sample:
+                k += 1
+                cs.append(pcase(seq, k))
+        return cs
+
+    def random_p(self, rng):
+        M = lambda: rng.choice((0, 0, 0, 1, 1, 2))
+        D = lambda: rng.choice((9, 10, 11))
+        ops = []
+        for _ in range(rng.randrange(4, 16)):
+            r = rng.random()
+            if r < 0.06:
+                ops.append("pnew %d %s" % (M(), rng.choice(("2", "4", "8"))))
+            elif r < 0.28:
+                ops.append("pset %d %s %x" % (M(), rng.choice(("0", "1", "2", "2", "4", "9")), rng.randrange(1, 128)))
+            elif r < 0.50:
+                ops.append("pdefer %d %d" % (M(), D()))
+            elif r < 0.60:
+                ops.append("psend %d %d" % (M(), rng.randrange(2)))
+            elif r < 0.75:
+                ops.append("preply %d %d" % (D(), rng.randrange(2)))
+            elif r < 0.83:
+                ops.append("paddref %d %d" % (M(), M()))
+            elif r < 0.94:
+                ops.append("punref %d" % M())
+            else:
+                ops.append("pfail %d" % rng.randrange(2))
+        return pcase(ops, rng.randrange(2))
+
     def counter_cases(self, depth):
         cs = []
         for fam in ("r", "y"):
@@ -611,6 +722,7 @@ class C15(DiffProperty):
         cases += self.history_cases(2 if quick else 3)
         cases += self.cxx_cases(2 if quick else 3)
         cases += self.node_cases(2 if quick else 3, rng, 0.03 if quick else 0.02)
+        cases += self.reply_cases(2 if quick else 3, rng, 0.12 if quick else 0.05)
         if quick:
             # length 3 histories: every kind, a random third of the triples
             for kind in MKINDS + ["mbuf"]:
@@ -623,6 +735,7 @@ class C15(DiffProperty):
         cases += [self.random_x(rng) for _ in range(nx)]
         cases += [self.random_x(rng, "g") for _ in range(nx)]
         cases += [self.random_n(rng) for _ in range(nx)]
+        cases += [self.random_p(rng) for _ in range(2 * nx)]
         return cases
 
 
